@@ -98,6 +98,39 @@ theorem c15_after_handling_victim_owns_nothing_and_cycle_gone (s : Sys) (v : Nat
 --   ∀ h ops, Good h → (∀ w b r, HasEdge (hrun h ops).sys.edges w b r ↔ (w, b, r) ∈ refEdges (hrun h ops))
 -- and hence `check_deadlock()` reports a cycle exactly when the reference graph has one.
 
+/-- **Exactness outside the trigger** (`_partial`: the full statement above is false).  Start from any state in
+    which the recorded graph equals the reference graph and every listed context tracks what its operation owns
+    (`Good`; in particular the empty system, `c15_good_init`).  Along every history of start / acquire / release /
+    complete / abort / kill in which no trigger event of the open finding occurs (`trig`: a successful acquire by X
+    while X has another pending wait, or somebody waits on a lock X owns, or somebody else waits on the acquired
+    lock; a successful release by X while X has a pending wait or somebody waits on a lock X still owns) and no
+    id is started while active, the recorded graph equals the reference wait-for graph at the end — and hence at
+    every point, every prefix of a trigger-free history being trigger-free. -/
+theorem c15_exact_partial (h : HSt) (ops : List HOp) (hg : Good h) (ht : TrigFree h ops) (w b r : Nat) :
+    HasEdge (hrun h ops).sys.edges w b r ↔ (w, b, r) ∈ refEdges (hrun h ops) := by
+  rw [mem_refEdges]
+  exact (good_run ops hg ht).exact w b r
+
+/-- the starting point: a system in which nothing is owned, nothing is recorded and nobody waits -/
+theorem c15_good_init (s : Sys) (hfree : ∀ o r, ¬ Owns s o r) (hedges : s.edges = []) :
+    Good { sys := s, pend := [] } := by
+  refine ⟨fun op => ⟨fun _ _ _ x hx => absurd hx (hfree op x), fun _ x => hfree op x⟩, ?_⟩
+  intro w b r
+  simp only [Ref, HasEdge, hedges]
+  simp
+
+/-- outside the trigger a reported cycle is a real one: every member is waiting, by the reference relation, for a
+    resource owned by the member it has its recorded edge to (no phantom deadlock).  The converse — a reference
+    cycle is reported — additionally needs completeness of the DFS (`c15_detects_recorded_cycle`, not proved). -/
+theorem c15_reported_members_really_wait_partial (h : HSt) (ops : List HOp) (hg : Good h) (ht : TrigFree h ops)
+    (c : List Nat) (hc : detectCycle (hrun h ops).sys.edges = some c) :
+    IsCycle (hrun h ops).sys.edges c ∧
+    ∀ a b, Edge (hrun h ops).sys.edges a b → ∃ r, (a, b, r) ∈ refEdges (hrun h ops) := by
+  refine ⟨(c15_reported_cycle_is_recorded_cycle _ c hc).1, ?_⟩
+  intro a b he
+  obtain ⟨r, hr⟩ := edge_hasEdge he
+  exact ⟨r, (c15_exact_partial h ops hg ht a b r).mp hr⟩
+
 private def w0 : HSt := { sys := ((({} : Sys).register 1 false).register 2 false).register 3 false }
 private def wOps : List HOp := [.start 1 1, .start 2 2, .acq 1 1, .acq 2 2, .acq 2 1, .acq 1 3, .acq 1 2]
 
@@ -135,5 +168,16 @@ example : TrigFree r0 rOps ∧ detectCycle (hrun r0 rOps).sys.edges = some [1, 2
   refine ⟨?_, by decide, by decide, by decide, by decide⟩
   simp only [TrigFree, rOps]
   decide
+
+/-- the hypotheses of `c15_exact_partial` are satisfiable: `r0` is `Good`, `rOps` is trigger-free (above) -/
+example : Good r0 := by
+  refine c15_good_init _ ?_ rfl
+  rintro o r ⟨l, hl, ho⟩
+  simp only [r0, Sys.register] at hl
+  split at hl
+  · cases hl; cases ho
+  · split at hl
+    · cases hl; cases ho
+    · cases hl
 
 end Operon.Coord
